@@ -119,7 +119,7 @@ class HistogramCollection(Container[Histogram1D], ObjectWithBinning):
         Note: If a bin is zero in all collections, the result will be inf.
         """
         col = self if inplace else self.copy()
-        sums = self.sum().frequencies
+        sums = self.sum().frequencies.copy()
         for h in col.histograms:
             h.set_dtype(float)
             h._frequencies /= sums
